@@ -49,12 +49,10 @@ Definition rel_of_edits (k : kind) (n : Z) (es : list edit) : rel := fold_left (
 (* ---------- reported state = the set ---------- *)
 Definition pair_eqb (p q : Z * Z) : bool := (fst p =? fst q) && (snd p =? snd q).
 Definition pmem (p : Z * Z) (l : list (Z * Z)) : bool := existsb (pair_eqb p) l.
-Fixpoint pnodup (l : list (Z * Z)) : bool :=
-  match l with [] => true | p :: t => negb (pmem p t) && pnodup t end.
 
+(* the reported pairs, read as a set, are the set R: they name channels only, and (s, r) is listed iff R s r *)
 Definition report_ok (n : Z) (R : rel) (rep : list (Z * Z)) : bool :=
-  pnodup rep
-  && forallb (fun p => chan_ok n (fst p) && chan_ok n (snd p)) rep
+  forallb (fun p => chan_ok n (fst p) && chan_ok n (snd p)) rep
   && forallb (fun s => forallb (fun r => Bool.eqb (pmem (s, r) rep) (R s r)) (zrange 0 n)) (zrange 0 n).
 
 (* ---------- secondaries ---------- *)
